@@ -70,6 +70,9 @@ pub enum Step {
     /// a paged search is finished early on its second page while the (long released) id of its FIRST page
     /// has been handed out again to an operation that is still outstanding: that operation must not be disturbed
     PagedFinishWhileIdReused { adapted: bool },
+    /// a Notice of Disconnection (message id 0) arrives in the middle of a search; the server then carries on and
+    /// completes the search. how: 0 = direct stream, 1 = EntriesOnly stream, 2 = search()
+    SearchWithNotice { how: u8, n: u8 },
 }
 
 #[derive(Clone, Debug, Serialize, Deserialize)]
@@ -102,6 +105,7 @@ fn strat(_: &Ctx) -> BoxedStrategy<Case> {
         2 => (0u8..5).prop_map(Step::LocalFailure),
         1 => (any::<bool>(), any::<bool>()).prop_map(|(second_is_search, late)| Step::DoubleTimeout { second_is_search, late }),
         1 => any::<bool>().prop_map(|adapted| Step::PagedFinishWhileIdReused { adapted }),
+        1 => (0u8..3, 0u8..4).prop_map(|(how, n)| Step::SearchWithNotice { how, n }),
     ];
     (vec(step, 3..=14), 1u8..=3, any::<u64>()).prop_map(|(steps, repeat, sched)| Case { steps, repeat, sched }).boxed()
 }
@@ -176,7 +180,10 @@ async fn server(wire: sim::Wire, sh: Arc<Mutex<Shared>>) {
                         sh.lock().unwrap().silent_ids.push((m.id, tag, late));
                     }
                     Some(Plan::Foreign { entries, app }) => {
-                        let foreign = if app == 24 {
+                        let foreign = if app == 0 {
+                            // not under the search's id: the unsolicited Notice of Disconnection
+                            RespMsg::new(0, Resp::Result { app: 24, res: Res::code(52, "notice"), sasl: None, exop_name: Some("1.3.6.1.4.1.1466.20036".into()), exop_val: None })
+                        } else if app == 24 {
                             RespMsg::new(m.id, Resp::Result { app: 24, res: Res::ok("foreign"), sasl: None, exop_name: Some("1.2.3".into()), exop_val: None })
                         } else {
                             RespMsg::new(m.id, Resp::result(app, Res::ok("foreign")))
@@ -536,6 +543,31 @@ async fn do_step(cx: &mut Cx, step: &Step) -> Result<(), Fail> {
             let res = s.finish().await;
             ensure!(got == *n as usize && res.rc == 0, "c13:search-entries", "search with a foreign response under its id yielded {} of {} entries, rc {}", got, n, res.rc);
         }
+        Step::SearchWithNotice { how, n } => {
+            let (_, mk) = cx.plan(Plan::Foreign { entries: *n, app: 0 });
+            let (got, rc) = if *how == 2 {
+                match cx.ldap.search(&mk, Scope::Subtree, "(a=b)", vec!["a"]).await {
+                    Ok(ldap3::SearchResult(e, r)) => (e.len(), r.rc),
+                    Err(e) => fail!("c13:op-failed", "search() during which a notice of disconnection (id 0) arrived failed with {}", err_kind(&e)),
+                }
+            } else {
+                let s = if *how == 1 { cx.ldap.streaming_search_with(EntriesOnly::new(), &mk, Scope::Subtree, "(a=b)", vec!["a"]).await } else { cx.ldap.streaming_search(&mk, Scope::Subtree, "(a=b)", vec!["a"]).await };
+                let mut s = match s {
+                    Ok(s) => s,
+                    Err(e) => fail!("c13:op-failed", "search start failed: {}", err_kind(&e)),
+                };
+                let mut got = 0;
+                loop {
+                    match s.next().await {
+                        Ok(Some(_)) => got += 1,
+                        Ok(None) => break,
+                        Err(e) => fail!("c13:op-failed", "a search during which a notice of disconnection (id 0) arrived failed with {} after {} entries", err_kind(&e), got),
+                    }
+                }
+                (got, s.finish().await.rc)
+            };
+            ensure!(got == *n as usize && rc == 0, "c13:search-entries", "search with an id-0 notice in the middle yielded {} of {} entries, rc {}", got, n, rc);
+        }
         Step::SearchConvTimeout { late } => {
             let (_, mk) = cx.plan(Plan::Silent { late: *late });
             cx.ldap.with_timeout(Duration::from_millis(50));
@@ -692,6 +724,7 @@ fn step_class(s: &Step) -> String {
         Step::Rewind(_) => "rewind-id-counter".into(),
         Step::SearchWithForeign { adapted, .. } => format!("search-with-foreign-response-{}", if *adapted { "adapted" } else { "direct" }),
         Step::SearchConvTimeout { .. } => "search()-timeout".into(),
+        Step::SearchWithNotice { how, .. } => format!("search-with-id0-notice-{}", ["direct", "entries-only", "search()"][*how as usize % 3]),
         Step::LocalFailure(k) => format!("local-failure-{}", k % 5),
         Step::DoubleTimeout { second_is_search, .. } => format!("double-timeout-{}", if *second_is_search { "op+search" } else { "op+op" }),
         Step::PagedFinishWhileIdReused { .. } => "paged-early-finish-while-first-page-id-reused".into(),
@@ -768,13 +801,132 @@ pub fn check(case: &Case, obs: &mut Obs) -> Result<(), Fail> {
     Ok(())
 }
 
+
+// ---------------------------------------------------------------- lane: a connection established through StartTLS
+//
+// StartTLS is the one operation the library runs through the driver's single-operation mode; its message id and
+// routing entry must be gone like any other's once the connection is handed to the caller.
+
+#[derive(Clone, Debug, Serialize, Deserialize)]
+pub struct TlsCase {
+    ops_after: u8,
+}
+
+fn tls_check(c: &TlsCase, obs: &mut Obs) -> Result<(), Fail> {
+    use crate::netinfra::{self, Cert};
+    use tokio::io::{AsyncReadExt, AsyncWriteExt};
+    let rt = tokio::runtime::Builder::new_current_thread().enable_all().build().map_err(|e| Fail::new("env-runtime", e.to_string()))?;
+    let c = c.clone();
+    let res: Result<(Vec<i32>, (usize, usize), Vec<u32>), Fail> = rt.block_on(async move {
+        let listener = tokio::net::TcpListener::bind("127.0.0.1:0").await.map_err(|e| Fail::new("env-bind", e.to_string()))?;
+        let port = listener.local_addr().map_err(|e| Fail::new("env-bind", e.to_string()))?.port();
+        let acc = netinfra::acceptor(Cert::Good).map_err(|e| Fail::new("env-tls", e))?;
+        let srv = tokio::spawn(async move {
+            let Ok((mut sock, _)) = listener.accept().await else { return };
+            // the StartTLS request in cleartext
+            let mut buf = Vec::new();
+            let id = loop {
+                let mut tmp = [0u8; 512];
+                match sock.read(&mut tmp).await {
+                    Ok(0) | Err(_) => return,
+                    Ok(n) => buf.extend_from_slice(&tmp[..n]),
+                }
+                if let ber::Parsed::Complete(t, _) = ber::parse(&buf) {
+                    match crate::model::decode_request(&t) {
+                        Ok(m) => break m.id,
+                        Err(_) => return,
+                    }
+                }
+            };
+            let _ = sock.write_all(&RespMsg::new(id, Resp::Result { app: 24, res: Res::ok(""), sasl: None, exop_name: Some("1.3.6.1.4.1.1466.20037".into()), exop_val: None }).encode()).await;
+            let Ok(mut tls) = acc.accept(sock).await else { return };
+            let mut buf = Vec::new();
+            loop {
+                let mut tmp = [0u8; 2048];
+                match tls.read(&mut tmp).await {
+                    Ok(0) | Err(_) => return,
+                    Ok(n) => buf.extend_from_slice(&tmp[..n]),
+                }
+                while let ber::Parsed::Complete(t, used) = ber::parse(&buf) {
+                    buf.drain(..used);
+                    if let Ok(m) = crate::model::decode_request(&t) {
+                        if let Some(tag) = m.req.response_tag() {
+                            let _ = tls.write_all(&RespMsg::new(m.id, Resp::result(tag, Res::ok("tls"))).encode()).await;
+                        }
+                    }
+                }
+            }
+        });
+        let settings = ldap3::LdapConnSettings::new().set_starttls(true).set_conn_timeout(Duration::from_secs(20)).set_connector(netinfra::ca_connector().map_err(|e| Fail::new("env-tls", e))?);
+        let (conn, mut ldap) = match ldap3::LdapConnAsync::with_settings(settings, &format!("ldap://localhost:{}", port)).await {
+            Ok(x) => x,
+            Err(e) => return Err(Fail::new("env-starttls", format!("StartTLS establishment against the harness's own server failed: {}", err_kind(&e)))),
+        };
+        let gauges = conn.verif_gauges();
+        let drv = tokio::spawn(async move {
+            let _ = conn.drive().await;
+        });
+        let mut rcs = Vec::new();
+        for i in 0..c.ops_after {
+            match tokio::time::timeout(Duration::from_secs(20), ldap.delete(&format!("cn=x{}", i))).await {
+                Ok(Ok(r)) => rcs.push(r.rc),
+                Ok(Err(e)) => return Err(Fail::new("c13:op-failed", format!("operation after StartTLS failed: {}", err_kind(&e)))),
+                Err(_) => return Err(Fail::new("env-timeout", "operation after StartTLS timed out")),
+            }
+        }
+        tokio::time::sleep(Duration::from_millis(20)).await;
+        let in_use: Vec<i32> = {
+            let m = ldap.verif_msgmap();
+            let m = m.lock().unwrap();
+            let mut v: Vec<i32> = m.1.iter().copied().collect();
+            v.sort();
+            v
+        };
+        let g = *gauges.lock().unwrap();
+        drop(ldap);
+        let _ = tokio::time::timeout(Duration::from_secs(5), drv).await;
+        srv.abort();
+        Ok((in_use, g, rcs))
+    });
+    let (in_use, g, _rcs) = res?;
+    ensure!(in_use.is_empty(), "c13:id-leak:starttls", "a connection established through StartTLS (then {} operations) still has message ids {:?} reserved although nothing is outstanding", c.ops_after, in_use);
+    ensure!(g == (0, 0), "c13:routing-leak:starttls", "a connection established through StartTLS holds {:?} routing entries although nothing is outstanding", g);
+    obs.label("starttls-connection");
+    obs.nontrivial(c.ops_after);
+    Ok(())
+}
+
+fn tls_run(ctx: &Ctx, known: &[crate::runner::KnownFinding]) -> crate::runner::LaneReport {
+    let mut rep = crate::runner::LaneReport::new("starttls");
+    rep.exhaustive = false;
+    if ctx.worker != 0 {
+        return rep;
+    }
+    for ops_after in 0..ctx.tier.pick(3u8, 12u8) {
+        let c = TlsCase { ops_after };
+        crate::runner::eval_case(&mut rep, known, &c, |obs| tls_check(&c, obs));
+        if rep.failure.is_some() {
+            break;
+        }
+    }
+    rep
+}
+
+fn tls_replay(v: serde_json::Value) -> Result<(), Fail> {
+    let c: TlsCase = serde_json::from_value(v).map_err(|e| Fail::new("replay-format", e.to_string()))?;
+    tls_check(&c, &mut Obs::default())
+}
+
 pub fn property() -> Property {
     Property {
         id: "C13",
         level: "exploration",
-        rule: "generated histories of 3-14 steps, repeated 1-3 times on one connection (up to 42 steps), mixing: the 7 single-result operations (success and error codes), operations and searches that time out against a silent server (with or without a late reply), replies/entries written at exactly the instant the timeout fires (tie: either outcome is accepted, the driver sees reply and scrub request in the same turn under the seeded select! order), operations and search starts that time out while their request is still queued behind a full socket send buffer (the server answers them later or never), direct / EntriesOnly / search() / PagedResults / [EntriesOnly, PagedResults] searches with 0-4 entries (x 1-3 pages) read to the end or finish()ed after k items - also while the search is still OPEN at the driver (the server withholds the final result of the page / search and sends it late), abandon of a finished, timed-out, in-flight or never-issued id, unsolicited responses, and rewinds of the id counter (as after a wrap-around) so that later operations are handed the ids of past ones and must work normally. Oracle at every quiescent point (virtual-clock quiescence: no task can run): the id table's in-use set is empty and both routing-map gauges are 0; abandon puts an AbandonRequest naming exactly the id on the wire, releases a waiting caller with an error, and the id leaves the in-use set. Non-trivial: >=3 steps including >=1 search, abandon or timeout. Distinct = debug rendering of the step list.",
+        rule: "generated histories of 3-14 steps, repeated 1-3 times on one connection (up to 42 steps), mixing: the 7 single-result operations (success and error codes), operations and searches that time out against a silent server (with or without a late reply), replies/entries written at exactly the instant the timeout fires (tie: either outcome is accepted, the driver sees reply and scrub request in the same turn under the seeded select! order), operations and search starts that time out while their request is still queued behind a full socket send buffer (the server answers them later or never), direct / EntriesOnly / search() / PagedResults / [EntriesOnly, PagedResults] searches with 0-4 entries (x 1-3 pages) read to the end or finish()ed after k items - also while the search is still OPEN at the driver (the server withholds the final result of the page / search and sends it late), abandon of a finished, timed-out, in-flight or never-issued id, unsolicited responses, and rewinds of the id counter (as after a wrap-around) so that later operations are handed the ids of past ones and must work normally. Oracle at every quiescent point (virtual-clock quiescence: no task can run): the id table's in-use set is empty and both routing-map gauges are 0; abandon puts an AbandonRequest naming exactly the id on the wire, releases a waiting caller with an error, and the id leaves the in-use set. Lane starttls: real loopback connections established through StartTLS (the one operation run in the driver's single-operation mode), then 0-11 operations: no id and no routing entry may remain. Non-trivial: >=3 steps including >=1 search, abandon or timeout. Distinct = debug rendering of the step list.",
         assumptions: &["hooks verif_msgmap / verif_gauges expose the id table and the sizes of the routing maps", "streams dropped without finish() are not 'completed' and are not generated", "server disconnects are C04's"],
-        lanes: vec![Box::new(PLane { name: "histories", cases: |t| t.pick(1_000, 15_000), strat, check })],
+        lanes: vec![
+            Box::new(PLane { name: "histories", cases: |t| t.pick(1_000, 15_000), strat, check }),
+            Box::new(crate::runner::FnLane { name: "starttls", run: tls_run, replay: tls_replay }),
+        ],
         workers: (8, 16),
     }
 }
